@@ -159,7 +159,7 @@ where
     // Watchdog: a case that does not return within the deadline (a wedged decoder, a
     // loop that consumes nothing) cannot be interrupted from inside; the watchdog records
     // its index in <VERIF_OUT>.hang and ends the process with status 97.  The driver
-    // reports that case as `[-2]` and runs the remaining cases in a new process.
+    // reports that case as wedged and runs the remaining cases in a new process.
     static CUR: std::sync::atomic::AtomicU64 = std::sync::atomic::AtomicU64::new(u64::MAX);
     static SINCE_MS: std::sync::atomic::AtomicU64 = std::sync::atomic::AtomicU64::new(0);
     let t0 = std::time::Instant::now();
